@@ -10,11 +10,15 @@ ROOT = os.path.dirname(os.path.dirname(os.path.abspath(__file__)))
 # why a confirmed change is not reported by the check of the property it was seeded for (kept here, next to the table generator,
 # and copied into meta.json["missed_because"])
 MISSED = {
+    "C14-6": "initialize_tucker casts the supplied decomposition to the data's dtype: only visible when data and initialisation differ in dtype "
+    "(float32 data, float64 init); E1 runs every tensor as dtype=object and replays in float64 -- dtype flow is outside the engine (C18 not applicable)",
+    "C03-2": "needs projections stored in a narrower dtype than the slices they produce; E1 is blind to dtype (dtype=object symbolically, float64 in replay)",
     "C13-3": "needs a passive sub-solution with two non-positive entries at once, i.e. >= 3 unknowns with a warm start; the active-set "
     "exploration is bounded to <= 2 unknowns (3 unknowns: undecided in 25 min, stated under OUTSIDE)",
 }
 NOTES = {
-    "C03-2": "rejected: the existing suite fails with it (1 failed) -- not a valid seeded change; E1 is blind to dtype anyway (C18 not applicable)",
+    "C08-6": "same edit as C14-2: the factors come back in the wrong positions -- reported by C14 (fixed factors bit-identical); C08's shape obligation uses sorted lists",
+    "C08-5": "reported by C08 (represented matrix) and by C06 (reported error no longer belongs to the returned pair)",
     "C09-1": "the change is an in-place edit of the caller's rank list: reported by C15 (rank_lists), not by C09",
     "C20-1": "scatter instead of gather in cp_permute_factors: reported by C04 (permutation preserves the tensor); C20's metrics are unaffected",
     "C11-2": "hard_thresholding keeps ties: reported by C12 (prox oracle); C11 replaces the prox by a tagging stub on purpose",
